@@ -24,3 +24,5 @@ func HScanAll() {
 	}
 	vAssert(false, "scanner-does-not-terminate")
 }
+
+func init() { vRegister("HScanAll", HScanAll) }
